@@ -3,6 +3,7 @@ package checks
 import (
 	"bytes"
 	"fmt"
+	"io"
 	"math"
 	"strings"
 
@@ -23,7 +24,7 @@ func init() { register(c19{}) }
 func (c19) ID() string    { return "C19" }
 func (c19) Level() string { return "exploration" }
 func (c19) Rule() string {
-	return "String and Dump are called under a panic guard (a call that never returns is caught by the watchdog on CPU-time evidence) on: zero values and NewX() values of every exported type (packets, TopicFilter, UserProp, UserProperties, Malformed, ReasonCode, a CONNECT holding a zero-value will); packets whose strings have every length 0..639 (and around 1000, 4096, 16384, 65535) with a failure reason code; every intermediate state of the C12 setter histories; every packet ReadPacket accepts from the hostile corpus of C04 and every partially filled packet a failed UnmarshalBinary leaves behind (zero, NewX() and reused receivers); and exhaustively all 256 values of every rendered byte: reason code on each packet that renders one and ReasonCode.String, the fixed-header byte (decode with each first byte), CONNECT flags and CONNACK flags (decode with each flag byte), subscription options (TopicFilter.String and SUBSCRIBE with each option byte). Output sanity: String() of a packet is non-empty and names its size in bytes. distinct = (type, state digest); non-trivial = state other than the zero value"
+	return "String and Dump are called under a panic guard (a call that never returns is caught by the watchdog on CPU-time evidence) on: zero values and NewX() values of every exported type (packets, TopicFilter, UserProp, UserProperties, Malformed, ReasonCode, a CONNECT holding a zero-value will); packets whose strings have every length 0..639 (and around 1000, 4096, 16384, 65535) with a failure reason code; every intermediate state of the C12 setter histories; every packet ReadPacket accepts from the hostile corpus of C04 and every partially filled packet a failed UnmarshalBinary leaves behind (zero, NewX() and reused receivers); and exhaustively all 256 values of every rendered byte: reason code on each packet that renders one and ReasonCode.String, the fixed-header byte (decode with each first byte), CONNECT flags and CONNACK flags (decode with each flag byte), subscription options (TopicFilter.String and SUBSCRIBE with each option byte). Every 64th Dump is repeated with a writer that itself dumps another packet inside Write. Every reason code is also rendered together with whitespace-only, %-laden, NUL, invalid-UTF-8 and quoted strings in the string fields. Output sanity: String() of a packet is non-empty and names its size in bytes. distinct = (type, state digest); non-trivial = state other than the zero value"
 }
 func (c19) Assumptions() []string {
 	return []string{"a typed-nil pointer is not a packet value", "Dump writes to a harness-owned bytes.Buffer"}
@@ -45,16 +46,35 @@ func (c19) Phases(env run.Env) []run.Phase {
 	return out
 }
 
+var renderCount int
+
 // render calls String and Dump on p; it reports a violation on panic.
 func render(c *run.Ctx, where string, p mq.Packet, origin func() map[string]interface{}) bool {
 	T := fmt.Sprintf("%T", p)
 	var s string
 	var d bytes.Buffer
+	ok0 := true
 	c.Current(func() string { return "String+Dump on " + T + " (" + where + ") " + fmt.Sprint(origin()) })
 	panS := mon.Guard(func() { s = p.String() })
 	panD := mon.Guard(func() { mq.Dump(&d, p) })
 	c.Eval(2)
-	ok := true
+	renderCount++
+	if renderCount%64 == 0 && panD == nil {
+		// a log writer that itself dumps a packet (a tee, a logger with
+		// context): Dump must not hold anything while it calls the writer
+		rw := mon.NewWriter()
+		other := mq.NewConnAck()
+		rw.Inner = func() { mq.Dump(io.Discard, other); _ = other.String() }
+		if pan := mon.Guard(func() { mq.Dump(rw, p) }); pan != nil {
+			c.Violation("C19/panic/Dump-reentrant/"+T, "Dump panicked with a writer that dumps another packet inside Write: "+pan.String(), withStack(origin(), pan))
+			ok0 = false
+		} else if !bytes.Equal(rw.Buf, d.Bytes()) {
+			c.Violation("C19/dump-reentrant-differs/"+T, "Dump wrote something else to a writer that dumps another packet inside Write", origin())
+			ok0 = false
+		}
+		c.Eval(1)
+	}
+	ok := ok0
 	if panS != nil {
 		c.Violation("C19/panic/String/"+T+"/"+panS.Where, fmt.Sprintf("String panicked on %s (%s): %s", T, where, panS.String()), withStack(origin(), panS))
 		ok = false
@@ -331,6 +351,27 @@ func c19Bytes(c *run.Ctx, v int) {
 		if rs, ok := p.(interface{ SetReasonString(string) }); ok {
 			rs.SetReasonString("why")
 			render(c, "reason code "+label+" + reason string", p, org("reason code"))
+		}
+		for _, odd := range []string{" ", " \t ", "\n", "%", "100% full", "a b", "\x00", "\xff\xfe", "é", "\"quoted\""} {
+			mon.Guard(func() {
+				if rs, ok := p.(interface{ SetReasonString(string) }); ok {
+					rs.SetReasonString(odd)
+				}
+				if sr, ok := p.(interface{ SetServerReference(string) }); ok {
+					sr.SetServerReference(odd)
+				}
+				if ca, ok := p.(*mq.ConnAck); ok {
+					ca.SetAssignedClientID(odd)
+					ca.SetResponseInformation(odd)
+					ca.SetAuthMethod(odd)
+				}
+				if au, ok := p.(*mq.Auth); ok {
+					au.SetAuthMethod(odd)
+				}
+			})
+			render(c, "reason code "+label+" + odd strings", p, func() map[string]interface{} {
+				return map[string]interface{}{"byte": label, "strings": odd}
+			})
 		}
 	}
 	for _, t := range []int{ref.TSubAck, ref.TUnsubAck} {
